@@ -227,7 +227,7 @@ func c07Jobs(c *ctx) (small []iso.Job, large []iso.Job) {
 }
 
 func runC07(c *ctx) {
-	c.Rule = "inputs run in child worker processes (ulimit -v 4 GiB, watchdog); oracle: no panic escapes hsms.Parse, the worker does not abort, TotalAlloc delta <= 1 MiB + 2048*len(input). Families: every format x 1/2/3 length bytes x declared length {0,1,255,256,65535,65536,2^24-1} x bytes present {0,1,declared-1,declared} at list depth {0,1,2,7,64} inside over-declaring lists; long legitimate items; lists of many small items of every format; generated legitimate trees up to ~1 MB; nested lists each declaring the largest count the remaining bytes allow; closed/unclosed one-element list chains; every single-point fault of seed encodings (the C03 enumerator); random bytes behind a correct length prefix; the deep-chain probe. non-trivial = input declares a length larger than the bytes that follow, or is >= 4 KiB; distinct by hash"
+	c.Rule = "inputs run in child worker processes (ulimit -v 4 GiB, watchdog); oracle: no panic escapes hsms.Parse, the worker does not abort, the decoder's item-step counter (hook H3) stays within len(input)+2, TotalAlloc delta <= 1 MiB + 2048*len(input). Families: every format x 1/2/3 length bytes x declared length {0,1,255,256,65535,65536,2^24-1} x bytes present {0,1,declared-1,declared} at list depth {0,1,2,7,64} inside over-declaring lists; long legitimate items; lists of many small items of every format; generated legitimate trees up to ~1 MB; nested lists each declaring the largest count the remaining bytes allow; closed/unclosed one-element list chains; every single-point fault of seed encodings (the C03 enumerator); random bytes behind a correct length prefix; the deep-chain probe. non-trivial = input declares a length larger than the bytes that follow, or is >= 4 KiB; distinct by hash"
 	c.Assume = []string{"runtime.MemStats.TotalAlloc measures the memory allocated during one call in a single-goroutine worker", "the bound's constants (1 MiB + 2048 B/byte) are ~4x the most expensive legitimate construct measured on this tree"}
 
 	small, large := c07Jobs(c)
@@ -371,7 +371,7 @@ func runC07(c *ctx) {
 			c.Sample(map[string]interface{}{"family": j.Family, "len": len(j.Input), "input": hex.EncodeToString(clipB(j.Input))})
 		}
 	}
-	c.Required = []string{"family/declared-vs-present", "family/single-point-fault", "family/long-item", "family/many-small-items", "family/generated-tree", "family/closed-chain", "family/nest-with-leaf-per-level", "family/nest-around-a-large-item", "family/greedy-nested-lists", "family/random", "accepted", "rejected"}
+	c.Required = []string{"hook-H3-reached", "family/declared-vs-present", "family/single-point-fault", "family/long-item", "family/many-small-items", "family/generated-tree", "family/closed-chain", "family/nest-with-leaf-per-level", "family/nest-around-a-large-item", "family/greedy-nested-lists", "family/random", "accepted", "rejected"}
 }
 
 func firstLines(s string, n int) string {
